@@ -28,6 +28,36 @@ func TestVerif_CrashHelper(t *testing.T) {
 	exp := time.Date(2041, 1, 1, 0, 0, 0, 0, time.UTC)
 	begin := func() { os.Stat("/verif-marker-begin") }
 	end := func() { os.Stat("/verif-marker-end") }
+	// fault mode (an injected I/O error instead of a kill): the operation may fail; afterwards this very process --
+	// the running server -- reports which tokens it honours, the way its next request would see them
+	fault := os.Getenv("VERIF_HELPER_FAULT") != ""
+	report := func(err error) {
+		if !fault {
+			if err != nil {
+				t.Fatal(err)
+			}
+			return
+		}
+		fmt.Printf("OPRESULT err=%v\n", err != nil)
+		var all []string
+		tokens.mu.Lock()
+		_, lerr := tokens.load()
+		if lerr != nil {
+			tokens.mu.Unlock()
+			fmt.Printf("MEMERR %v\n", lerr)
+			return
+		}
+		for _, tk := range tokens.tokens {
+			b, _ := json.Marshal(tk)
+			all = append(all, string(b))
+		}
+		tokens.mu.Unlock()
+		sort.Strings(all)
+		for _, n := range all {
+			fmt.Printf("MEM %s\n", n)
+		}
+		fmt.Printf("MEMDONE %d\n", len(all))
+	}
 	switch os.Getenv("VERIF_HELPER_OP") {
 	case "load":
 		// what a freshly started server reads
@@ -60,9 +90,7 @@ func TestVerif_CrashHelper(t *testing.T) {
 		begin()
 		_, err = Update(n, etag)
 		end()
-		if err != nil {
-			t.Fatal(err)
-		}
+		report(err)
 	case "delete":
 		_, etag, err := Get(arg)
 		if err != nil {
@@ -71,23 +99,17 @@ func TestVerif_CrashHelper(t *testing.T) {
 		begin()
 		err = Delete(arg, etag)
 		end()
-		if err != nil {
-			t.Fatal(err)
-		}
+		report(err)
 	case "add":
 		begin()
 		_, err := Update(&Stateful{Token: arg, Group: "g", Permissions: []string{"message"}, Expires: &exp}, "")
 		end()
-		if err != nil {
-			t.Fatal(err)
-		}
+		report(err)
 	case "expire":
 		begin()
 		err := Expire()
 		end()
-		if err != nil {
-			t.Fatal(err)
-		}
+		report(err)
 	default:
 		t.Fatal("unknown op")
 	}
